@@ -117,17 +117,26 @@ func setup() *toolchain {
 		}
 		tc.dir = dir
 		tc.protoc, tc.drpc = filepath.Join(dir, "bin", "protoc-gen-go"), filepath.Join(dir, "bin", "protoc-gen-go-drpc")
-		if out, err := run(harnessDir(), "go", "build", "-o", tc.protoc, "google.golang.org/protobuf/cmd/protoc-gen-go"); err != nil {
+		// VERIF_REPO / VERIF_MODFILE: development-only override (bin/mutant-wt) that points the harness at a scratch
+		// worktree of storj/drpc instead of /repo; the registered commands never set them.
+		repo, modfile := os.Getenv("VERIF_REPO"), []string{}
+		if repo == "" {
+			repo = "/repo"
+		}
+		if mf := os.Getenv("VERIF_MODFILE"); mf != "" {
+			modfile = []string{"-modfile=" + mf}
+		}
+		if out, err := run(harnessDir(), "go", append(append([]string{"build"}, modfile...), "-o", tc.protoc, "google.golang.org/protobuf/cmd/protoc-gen-go")...); err != nil {
 			tc.err = fmt.Errorf("build protoc-gen-go: %v\n%s", err, out)
 			return
 		}
-		if out, err := run(harnessDir(), "go", "build", "-o", tc.drpc, "storj.io/drpc/cmd/protoc-gen-go-drpc"); err != nil {
+		if out, err := run(harnessDir(), "go", append(append([]string{"build"}, modfile...), "-o", tc.drpc, "storj.io/drpc/cmd/protoc-gen-go-drpc")...); err != nil {
 			tc.err = fmt.Errorf("build protoc-gen-go-drpc: %v\n%s", err, out)
 			return
 		}
-		gomod := "module verifgen\n\ngo 1.19\n\nrequire (\n\tgithub.com/zeebo/errs v1.2.2\n\tgoogle.golang.org/protobuf v1.27.1\n\tstorj.io/drpc v0.0.0\n)\n\nreplace storj.io/drpc => /repo\n"
+		gomod := "module verifgen\n\ngo 1.19\n\nrequire (\n\tgithub.com/zeebo/errs v1.2.2\n\tgoogle.golang.org/protobuf v1.27.1\n\tstorj.io/drpc v0.0.0\n)\n\nreplace storj.io/drpc => " + repo + "\n"
 		_ = os.WriteFile(filepath.Join(dir, "go.mod"), []byte(gomod), 0o644)
-		sum, _ := os.ReadFile("/repo/go.sum")
+		sum, _ := os.ReadFile(filepath.Join(repo, "go.sum"))
 		_ = os.WriteFile(filepath.Join(dir, "go.sum"), sum, 0o644)
 		_ = os.MkdirAll(filepath.Join(dir, "customenc"), 0o755)
 		_ = os.WriteFile(filepath.Join(dir, "customenc", "enc.go"), []byte(customEnc), 0o644)
